@@ -193,9 +193,10 @@ struct Gen {
     }
     // per-thread programs, interleaved in the plan in round-robin order (plan order = reference order)
     std::vector<std::vector<Step> > prog(nthreads);
+    const bool same_order = rng.chance(0.5);   // every thread walks the hot constants in the same order: maximal overlap of first-use windows
     for (int t = 0; t < nthreads; ++t) {
       std::vector<Step> hs = hot;
-      for (int i = (int)hs.size() - 1; i > 0; --i) std::swap(hs[i], hs[rng.below(i + 1)]);
+      if (!same_order) for (int i = (int)hs.size() - 1; i > 0; --i) std::swap(hs[i], hs[rng.below(i + 1)]);
       int take = rng.chance(0.8) ? (int)hs.size() : (int)rng.below((uint32_t)hs.size() + 1);
       for (int i = 0; i < take; ++i) { hs[i].op.thread = (uint8_t)t; prog[t].push_back(hs[i]); }
       int extra = (int)rng.below(thorough ? 24 : 12);
@@ -242,6 +243,7 @@ void run_c14(const RunOpts& o, Result& res) {
   Plan plan;
   if (o.replay) plan = *o.replay;
   else { Gen g(o.seed); g.generate(o.seed, o.thorough); plan = g.plan; }
+  if (o.dry) { if (o.record) *o.record = plan; res.str["dry"] = "1"; return; }
   const int nthreads = (int)plan.cfg_int("threads", 2);
   if (nthreads < 1 || nthreads > 15) { res.status = "harness_error"; res.detail = "bad thread count"; return; }
 
@@ -379,7 +381,7 @@ void run_c14(const RunOpts& o, Result& res) {
   if (rc != 0) {
     // threads are parked for good: report and leave without joining
     res.fail(rc == 1 ? "deadlock" : "progress", rc == 1 ? "deadlock" : "progress",
-             rc == 1 ? "all remaining simulated threads are blocked on guards owned by blocked threads"
+             rc == 1 ? "all remaining simulated threads are blocked on initialisation guards / locks owned by blocked threads"
                      : "run did not finish within " + std::to_string(budget) + " scheduler decisions", vs_steps());
     dump_events(); record();
     res.str["flavour"] = flavour_name();
